@@ -158,6 +158,14 @@ def run(tier: str, rep: Report):
                 f = str(wd / f"sig-{v}-{k}.ndjson")
                 files.append(f)
                 jobs[v].append(("encode.signatures_to_file", {"cases": [dict(c, id=c["id"] + ":" + v) for c in ch], "path": f}))
+            sizes = [254, 255, 256, 257] + ([65535, 65536] if tier == "thorough" and v in ("38", "310") else [])
+            bt = [{"id": f"b:{kind}:{n_}:{v}", "n": n_, "kind": kind} for n_ in sizes for kind in ("names", "consts", "locals")
+                  if n_ < 1000 or kind == "names"]
+            for ch in chunks(bt, 4):
+                k += 1
+                f = str(wd / f"big-{v}-{k}.ndjson")
+                files.append(f)
+                jobs[v].append(("encode.bigtables_to_file", {"cases": ch, "path": f}))
             lp = lineprogs["a310" if v == "310" else "a39"]
             for ch in chunks(lp, 150):
                 k += 1
@@ -227,8 +235,8 @@ def run(tier: str, rep: Report):
     fails = df.validate(rep, files, "Trace_Encode")
 
     def keyfn(evid, clauses):
-        src = "graph" if evid.startswith("g:") else "overrides" if evid.startswith("o:") else "lineprog" if evid.startswith("l:") else "signature" if evid.startswith("s:") else ("normalized" if evid.endswith(":norm") else "decoded")
-        return f"{PID}/{'+'.join(sorted(set(c.split('.', 1)[1] for c in clauses)))}/{src}/ver{df.ver_of(evid) if evid[:2] not in ('g:', 'o:', 'l:', 's:') else evid.split(':')[-1]}"
+        src = "graph" if evid.startswith("g:") else "overrides" if evid.startswith("o:") else "lineprog" if evid.startswith("l:") else "signature" if evid.startswith("s:") else "bigtable" if evid.startswith("b:") else ("normalized" if evid.endswith(":norm") else "decoded")
+        return f"{PID}/{'+'.join(sorted(set(c.split('.', 1)[1] for c in clauses)))}/{src}/ver{df.ver_of(evid) if evid[:2] not in ('g:', 'o:', 'l:', 's:', 'b:') else evid.split(':')[-1]}"
 
     def corrupt(e):
         if e.get("kind") != "encode" or e["out"]["exc"] or not e.get("relax") or not e["relax"][0][0]:
